@@ -50,9 +50,8 @@ Definition set_box (b : boxin) : res (list bentry) :=
   | BoxMat m => if length m =? 9 then Ok m else Err EValue
   end.
 
-(* comment setter: value[-1] == '\n' -> value[:-1] *)
-Definition set_comment (t : bytes) : res bytes :=
-  match t with [] => Err EIndex | _ => Ok (drop_final_nl t) end.
+(* comment setter: value.endswith('\n') -> value[:-1]; the empty string is a title like any other *)
+Definition set_comment (t : bytes) : res bytes := Ok (drop_final_nl t).
 
 Definition w_start (c : wconf) : res wstate :=
   let* title := match c_title c with
@@ -84,12 +83,15 @@ Definition w_record (st : wstate) (s : wsetup) (r : grec) : res wstate :=
   let st1 := fwrite (fwrite st line) [NL] in
   Ok (set_cur st1 (S (wcur st1))).
 
+(* str.endswith('\n'); false on '' *)
+Definition ends_nl (t : bytes) : bool :=
+  match last_opt t with Some c => Ascii.eqb c NL | None => false end.
+
 (* _setup_write_file, first part: comment line and count line *)
 Definition w_header (st : wstate) : res wstate :=
   let title := wtitle st in
-  let* lastc := match last_opt title with None => Err EIndex | Some c => Ok c end in
   let st1 := fwrite st title in
-  let st2 := if Ascii.eqb lastc NL then st1 else fwrite st1 [NL] in
+  let st2 := if ends_nl title then st1 else fwrite st1 [NL] in   (* not comment.endswith("\n") *)
   Ok (match wnat st with
       | None => fwrite st2 (repeat SP NUMBER_FIGURES ++ [NL])
       | Some n => fwrite st2 (fmt_Z n ++ [NL])
